@@ -138,6 +138,20 @@ def scenarios(draw):
                 if n >= 41:
                     sc["overrides"].append([g["chr"], e[0] - 1, rich[:n].replace("A", "T")])
                     sc.setdefault("arich", []).append([g["chr"], e[0], e[0] + n - 1, "-"])
+    # ... and isoforms whose short 5' exon begins T-rich (A-rich on the minus strand), where no polyA tail can be
+    for g, t in S.transcripts_of(sc):
+        if len(t["exons"]) > 1 and src.bool(0.15):
+            e = t["exons"][0] if g["strand"] == "+" else t["exons"][-1]
+            ln = e[1] - e[0] + 1
+            if 40 <= ln <= 100:
+                n = min(ln - 8, max(30, (ln * 3) // 4))
+                rich = "".join("T" if (i % 8) else src.choice("CG") for i in range(n))
+                if g["strand"] == "+":
+                    sc["overrides"].append([g["chr"], e[0] - 1, rich])
+                    sc.setdefault("rich5", []).append([g["chr"], e[0], e[0] + n - 1, "+"])
+                else:
+                    sc["overrides"].append([g["chr"], e[1] - n, rich[::-1].replace("T", "A")])
+                    sc.setdefault("rich5", []).append([g["chr"], e[1] - n + 1, e[1], "-"])
     truth = {}
     k = 0
     lens = {c[0]: c[1] for c in sc["chroms"]}
@@ -218,6 +232,19 @@ def evaluate(case, ctx):
                 continue
             typ = rws[0]["type"]
             chrom = rws[0]["chr"]
+            # root cause of a known finding: the read begins in a short 5' exon that is T-rich in the genome (A-rich on
+            # the minus strand); the exon is cut off as if it were an aligned polyT head
+            rich5 = False
+            for c_, a_, b_, st_ in sc.get("rich5", []):
+                blk = blocks[0] if st_ == "+" else blocks[-1]
+                if c_ == chrom and blk[0] <= b_ and blk[1] >= a_:
+                    rich5 = True
+
+            def viol(sig, det, case_):
+                if rich5:
+                    sig = "C01:read-beginning-in-a-t-rich-genomic-5prime-exon:" + (
+                        sig.split(":")[2] if sig.startswith("C01:read-ending-in-an-a-rich") else sig[4:].split(":")[0])
+                ctx.violation(sig, det, case_)
             reported = [r["isoform"] for r in rws if r["isoform"] != "."]
             if cls == "F":
                 ctx.mark_nontrivial(chash + name)
@@ -228,7 +255,7 @@ def evaluate(case, ctx):
                                for x in evs)
                     key = [e for e in ("terminal_exon_misalignment", "exon_misalignment", "intron_shift",
                                        "fake_terminal_exon", "exon_elongation") if e in base]
-                    ctx.violation("C01:far-read-reported-consistent:" + ("+".join(key) if key else "other"),
+                    viol("C01:far-read-reported-consistent:" + ("+".join(key) if key else "other"),
                                   {"read": name, "type": typ, "isoforms": reported, "events": ev, "blocks": blocks,
                                    "source": tr["src"], "source_exons": iso[tr["src"]][1], "strategy": strat}, case)
                 continue
@@ -250,7 +277,7 @@ def evaluate(case, ctx):
                 ctx.mark_nontrivial(chash + name)
             if typ not in CONSISTENT:
                 ev = ",".join(sorted(set(e.split(":")[0] for r in rws for e in r["events"])))
-                ctx.violation("C01:read-ending-in-an-a-rich-genomic-stretch:not-consistent" if ar else
+                viol("C01:read-ending-in-an-a-rich-genomic-stretch:not-consistent" if ar else
                               "C01:within-tolerance-read-not-consistent:%s:%s" % (typ, strat),
                               {"read": name, "type": typ, "events": ev, "blocks": blocks, "T": T,
                                "T_exons": iso[T][1], "truth": {k: v for k, v in tr.items() if k != "blocks"},
@@ -260,12 +287,13 @@ def evaluate(case, ctx):
                 if t in iso:
                     w = compat.sure_incompatible(blocks, iso[t][1], delta)
                     if w:
-                        ctx.violation("C01:reported-isoform-surely-incompatible:" + w.split(":")[0],
+                        viol("C01:read-ending-in-an-a-rich-genomic-stretch:reported-isoform-incompatible" if ar else
+                             "C01:reported-isoform-surely-incompatible:" + w.split(":")[0],
                                       {"read": name, "isoform": t, "witness": w, "blocks": blocks,
                                        "isoform_exons": iso[t][1], "type": typ, "T": T}, case)
             full = not tr["left_cut"] and not tr["right_cut"]
             if full and T not in reported:
-                ctx.violation("C01:read-ending-in-an-a-rich-genomic-stretch:misses-its-isoform" if ar else
+                viol("C01:read-ending-in-an-a-rich-genomic-stretch:misses-its-isoform" if ar else
                               "C01:full-length-read-misses-its-isoform:" + strat,
                               {"read": name, "T": T, "reported": reported, "type": typ, "blocks": blocks,
                                "T_exons": iso[T][1], "others": {t: iso[t][1] for t in reported if t in iso},
@@ -273,7 +301,8 @@ def evaluate(case, ctx):
             others = [t for t in by_chr[chrom] if t != T]
             if all(compat.sure_incompatible(blocks, iso[t][1], delta) for t in others):
                 if typ == "ambiguous" or reported != [T]:
-                    ctx.violation("C01:only-compatible-isoform-not-unique",
+                    viol("C01:read-ending-in-an-a-rich-genomic-stretch:only-compatible-isoform-not-unique" if ar else
+                         "C01:only-compatible-isoform-not-unique",
                                   {"read": name, "T": T, "reported": reported, "type": typ, "blocks": blocks}, case)
         ctx.sample(pipeline.summarize(sc, {"classes": {c: sum(1 for t in sc["truth"].values() if t["cls"] == c)
                                                         for c in "WFG"}, "strategy": strat}), limit=2)
